@@ -32,9 +32,9 @@ SPEC = {
 }
 
 
-def _run_harness(ctx, seed, hist, outdir):
+def _run_harness(ctx, seed, hist, outdir, nodata):
     os.makedirs(outdir, exist_ok=True)
-    args = [ctx["hbin"], "-seed", str(seed), "-out", outdir, "-hist", str(hist), "-batches", "12"]
+    args = [ctx["hbin"], "-seed", str(seed), "-out", outdir, "-hist", str(hist), "-batches", "12", "-nodata", str(nodata)]
     try:
         subprocess.run(args, stdout=subprocess.PIPE, stderr=subprocess.STDOUT, timeout=900, env=ctx["runner"].GOENV)
         return json.load(open(os.path.join(outdir, "stats.json")))
@@ -42,14 +42,38 @@ def _run_harness(ctx, seed, hist, outdir):
         return None
 
 
+def _first_disagreement_replay(ctx):
+    """model and implementation disagree on some op line: save the history that leads to the first
+    such line as a replayable file (./check C01 quick --replay FILE prints both sides line by line)"""
+    dis = ctx.get("disagreements") or []
+    ops_path = os.path.join(ctx["rundir"], "ops.txt")
+    if not dis or not os.path.exists(ops_path):
+        return
+    ops = open(ops_path).read().splitlines()
+    last = dis[0]["line"] - 1
+    first = last
+    while first > 0 and not ops[first].startswith("new\t"):
+        first -= 1
+    path = os.path.join(ctx["runner"].VERIF, "replays", f"C01-correspondence-seed{ctx['seed']}.txt")
+    os.makedirs(os.path.dirname(path), exist_ok=True)
+    with open(path, "w") as f:
+        f.write("# property C01: the Lean model and the implementation disagree on the last line of this history\n")
+        f.write("# implementation: " + dis[0]["impl"][:2000] + "\n# model:          " + dis[0]["model"][:2000] + "\n")
+        f.write("# replay with: ./check C01 quick --replay <this file>\n")
+        f.write("\n".join(ops[first:last + 1]) + "\n")
+    ctx["runner"].log(f"C01: history leading to the first model/implementation disagreement: {path}")
+
+
 def search(ctx):
     """A proof obligation or the correspondence broke without an oracle failure in the standard run:
     look wider (other seeds, more histories) for a history on which the real shard leaves the
     reference model."""
+    _first_disagreement_replay(ctx)
     base = os.path.join(ctx["rundir"], "search")
     try:
         for k in range(1, 5):
-            st = _run_harness(ctx, ctx["seed"] * 101 + k, 250 if ctx["tier"] == "quick" else 800, os.path.join(base, str(k)))
+            # zero-length Data (rare in the main stream) is what turns a stale n<id>d entry into a wrong read
+            st = _run_harness(ctx, ctx["seed"] * 101 + k, 250 if ctx["tier"] == "quick" else 800, os.path.join(base, str(k)), [1, 25, 10, 40][k - 1])
             if not st:
                 continue
             for f in st.get("oracle_failures", []):
